@@ -222,21 +222,13 @@ def enumOk (fs : Array Field) (env : Array Int) (rfields : List Nat) : Bool :=
 
 def jList (f : α → Json) (l : List α) : Json := Json.arr (l.map f).toArray
 
-def handleCall (j : Json) : Except String Json := do
-  let fields := (← (← getA j "fields").mapM fieldOf).toArray
-  let fk ← fkOf j
-  let tops ← (← getA j "tops").mapM (stmtOf fk)
-  let recs ← getA j "rec"
-  let limit := (getN j "enumLimit").toOption.getD 14
-  let implFinal : Option (Array Int) := match getOpt j "implFinal" with
-    | some a => (do pure (← (← a.getArr?).toList.mapM (·.getInt?)).toArray : Except String (Array Int)).toOption
-    | none => none
+def runCall (fields : Array Field) (tops : List Stmt) (recs : List Json) (limit : Nat)
+    (implFinal : Option (Array Int)) (allF : List Nat) : Except String Json := do
   let Γ := envΓ fields
   let vals0 : Array Int := fields.map (·.val)
   let vn : Nat → String := fun i => match fields[i]? with | some f => f.name | none => s!"?{i}"
   let st := RandSets.build tops
   let rsl := RandSets.randSets st
-  let allF := List.range fields.size
   let dropped := (List.range tops.length).filter fun k => !(rsl.any fun rs => rs.hard.any (fun c => c.1 == k) )
       && (match tops[k]? with | some (.soft _) => false | _ => true)
   let mut vals := vals0
@@ -352,6 +344,17 @@ def handleCall (j : Json) : Except String Json := do
     ("unconstrained", jList (fun i => Json.str (vn i)) (RandSets.unconstrained allF st)),
     ("dropped", jList jNat dropped),
     ("err", match st.err with | some e => Json.str e | none => Json.null)]
+
+def handleCall (j : Json) : Except String Json := do
+  let fields := (← (← getA j "fields").mapM fieldOf).toArray
+  let fk ← fkOf j
+  let tops ← (← getA j "tops").mapM (stmtOf fk)
+  let recs ← getA j "rec"
+  let limit := (getN j "enumLimit").toOption.getD 14
+  let implFinal : Option (Array Int) := match getOpt j "implFinal" with
+    | some a => (do pure (← (← a.getArr?).toList.mapM (·.getInt?)).toArray : Except String (Array Int)).toOption
+    | none => none
+  runCall fields tops recs limit implFinal (List.range fields.size)
 
 /-- `z.expr`: value of one expression under an environment, reference and lowered side by side -/
 def handleExpr (j : Json) : Except String Json := do
